@@ -163,6 +163,14 @@ func KnownPanic(id, where string) { knownPanics = append(knownPanics, [2]string{
 func ExactCRC(on bool)     {}
 // MaxLoop declares that a loop of the code under test that can run more than n iterations is a violation.
 func MaxLoop(n int)       {}
+// SparseAlloc makes make() with a symbolic size produce a sparse array (no capacity bound).
+func SparseAlloc(on bool)  {}
+
+// Stopped is the panic value of Stop.
+type Stopped struct{ Label string }
+
+// Stop ends the run here (observation point reached); natively the harness run ends successfully.
+func Stop(label string) { fmt.Printf("VP-COVER %s\n", label); panic(Stopped{label}) }
 func Unwind(n int)        {}
 func AllocCap(n int)      {}
 func AllocLimit(n uint64) {}
@@ -266,6 +274,9 @@ func Run(name string, h func()) (ok bool) {
 			ok = true
 		case AssumeFalse:
 			fmt.Printf("VP-RESULT assume-false\n")
+			ok = true
+		case Stopped:
+			fmt.Printf("VP-RESULT ok\n")
 			ok = true
 		case AssertFail:
 			fmt.Printf("VP-RESULT assert-fail %s\n", x.Label)
